@@ -22,6 +22,7 @@ static int op_fe_prog(void) {
         case 'l': { unsigned char b[32]; size_t k; int r; if (strlen(rest) != 64 || sp >= FE_STACK) return -1;
                     for (k = 0; k < 32; k++) b[k] = (unsigned char)(hexval(rest[2*k]) * 16 + hexval(rest[2*k+1]));
                     r = secp256k1_fe_set_b32_limit(&st[sp], b); if (!r) secp256k1_fe_set_int(&st[sp], 0); sp++; out_int(r); break; }
+        case 'B': { int m = atoi(rest); if (m < 0 || m > 32 || sp >= FE_STACK) return -1; secp256k1_fe_get_bounds(&st[sp++], m); break; }
         case 'A': if (sp < 2) return -1; secp256k1_fe_add(&st[sp-2], &st[sp-1]); sp--; break;
         case 'N': if (sp < 1) return -1; secp256k1_fe_negate_unchecked(&st[sp-1], &st[sp-1], atoi(rest)); break;
         case 'I': if (sp < 1) return -1; secp256k1_fe_mul_int_unchecked(&st[sp-1], atoi(rest)); break;
